@@ -257,6 +257,8 @@ func main() {
 		os.Exit(cmdRun(os.Args[2:]))
 	case "show":
 		os.Exit(cmdShow(os.Args[2:]))
+	case "scan":
+		os.Exit(cmdScan(os.Args[2:]))
 	case "race":
 		os.Exit(cmdRace(os.Args[2:]))
 	default:
